@@ -261,6 +261,8 @@ def judge_run(cfg, seed, fn=None):
                 if not same(p, fa[p], fb[p]):
                     out.append(("reloaded_field", f"{p}={fa[p]!r}", repr(fb[p])))
             must = {"detector.initial_position.latitude", "detector.initial_position.longitude", "simulation.spectrum.id", "simulation.cloud_model.id", "simulation.mode", "simulation.thrown_events"}
+            # which fields are reconstructed depends on the spectrum TYPE, never on the values recorded
+            must |= {"simulation.spectrum.index", "simulation.spectrum.lower_bound", "simulation.spectrum.upper_bound"} if type(cfg.simulation.spectrum).__name__ == "PowerSpectrum" else {"simulation.spectrum.log_nu_energy"}
             if not must <= rec:
                 out.append(("reloaded_set", sorted(must), sorted(must - rec)))
             if type(c2.simulation.spectrum) is not type(cfg.simulation.spectrum) or type(c2.simulation.cloud_model) is not type(cfg.simulation.cloud_model):
